@@ -4,6 +4,7 @@
    scroll_up family and set_scrollback).  [gw x y]: the capacity is kept and a grid with no
    history and capacity 0 stays that way (everything). *)
 Require Import Tac ListN Width Attrs Cell Row Grid Screen Vte Perform Parser.
+Require Import Chunking.
 Open Scope N_scope.
 
 Definition sbeq (x y : grid) : Prop := sb y = sb x /\ sb_cap y = sb_cap x /\ sb_off y = sb_off x.
@@ -465,7 +466,7 @@ Qed.
 (* ---- Parser.v ---- *)
 Lemma sw2_process p bs q : process p bs = Ok q -> sw2 (scr p) (scr q).
 Proof.
-  unfold process. destruct (advance (vt p) bs) as [v acts]. intros E. bind_inv E. destruct v0 as [s evs].
+  rewrite process_unfold. destruct (advance (vt p) _) as [v acts]. intros E. bind_inv E. destruct v0 as [s evs].
   inv E. cbn [scr]. eapply sw2_perform_all; exact E0.
 Qed.
 
